@@ -1182,7 +1182,10 @@ def jnp_reshape(a, shape):
         tgt = [(_dim(s) if not isinstance(s, SymDim) else s) for s in shape]
         if any(isinstance(s, SymDim) for s in tgt):
             raise Top("reshape of a concrete tensor to a symbolic extent")
-        data = a.data.reshape(tuple(tgt))
+        try:
+            data = a.data.reshape(tuple(tgt))
+        except ValueError:
+            raise Finding(f"cannot reshape a tensor with axes {a.axes} to {tuple(tgt)} (different number of elements)")
         return AT(data.shape, data)
     # symbolic source: match axes ignoring unit axes
     src = [x for x in a.axes if x != 1]
